@@ -286,12 +286,14 @@ def check_container_factory(ctx, num=5):
     P = ctx.P
     sites = [(f, c) for (f, c) in package_calls(P, "Container") if isinstance(c.func, ast.Name)]
     ctx.count_min("Container( construction sites", len(sites), 1)
-    home = P.fn(RP, "ResourcePool.run_one_tick")
+    from . import pool as _pool
+    pa = _pool.pool_analysis(P)
+    home = pa.f
     for f, c in sites:
-        ok = f.node is home.node
+        ok = f.mod.rel == RP and f.qual in pa.closure
         ctx.ob(num, "K1", "Container objects are constructed only in ResourcePool.run_one_tick", ok, f, c,
                detail=f"constructed in {f.mod.rel}::{f.qual}")
-    insite = [c for f, c in sites if f.node is home.node]
+    insite = [c for c in calls_named(home, "Container") if isinstance(c.func, ast.Name)]
     ctx.ob(num, "K1", "exactly one Container( site in ResourcePool.run_one_tick", len(insite) == 1, home, insite[0] if insite else home.node,
            construct="Container(...) sites", detail=f"{len(insite)} site(s)")
     if len(insite) == 1:
@@ -337,7 +339,8 @@ def check_suffix_slices(ctx, num=6):
             ok = False
             detail = "transition call is not inside a for loop over the operator suffix"
             if lp is not None and isinstance(lp.target, ast.Name) and norm.is_name(recv, lp.target.id):
-                it = lp.iter
+                from ..util import inline_simple_calls, single_defs
+                it = inline_simple_calls(P, norm.subst(lp.iter, single_defs(fn_)))   # the slice may live in a private helper or a local
                 if (isinstance(it, ast.Subscript) and isinstance(it.slice, ast.Slice) and it.slice.upper is None and it.slice.step is None
                         and it.slice.lower is not None and self_attr(it.slice.lower, "_current_op_idx")
                         and (self_attr(it.value, "operators") or norm.U(it.value) == "self.assignment.ops")):
